@@ -402,7 +402,7 @@ public:
     // Return *this % d.  The return value will have the sign of d
     FastRational operator%(const FastRational& d) {
         assert(isInteger() && d.isInteger());
-        if (wordPartValid() && d.wordPartValid()) {
+        if (wordPartValid() && d.wordPartValid() && not (num == INT_MIN && d.num == -1)) { // INT_MIN % -1 traps
             uword w = absVal(num % d.num);  // Largest value is absVal(INT_MAX % INT_MIN) = INT_MAX
             return (word)(d.num > 0 ? w : -w); // No overflow since 0 <= w <= INT_MAX
         }
